@@ -157,10 +157,91 @@ def native_pool(td: Native, tier: str, rng: random.Random) -> List[Any]:
     return out
 
 
-def data_pool(td, tier: str, rng: random.Random) -> List[Any]:
+def dup_variants(d, limit: int = 24) -> List[Any]:
+    """data whose arrays hold DUPLICATE items, so that the length of the array and the number of
+    distinct items fall on different sides of an items-count bound: every array of d (at any
+    depth) replaced by n copies of its first item (n = 1..4), and extended by 1 / 2 copies of it"""
+    out: List[Any] = []
+
+    def rec(x, rebuild):
+        if len(out) >= limit:
+            return
+        if isinstance(x, list):
+            if x:
+                for n in (1, 2, 3, 4):
+                    out.append(rebuild([copy.deepcopy(x[0]) for _ in range(n)]))
+                out.append(rebuild(x + [copy.deepcopy(x[0])]))
+                out.append(rebuild(x + [copy.deepcopy(x[0]), copy.deepcopy(x[0])]))
+            for i in range(min(len(x), 2)):
+                rec(x[i], lambda v, i=i: rebuild(x[:i] + [v] + x[i + 1 :]))
+        elif isinstance(x, dict):
+            for k in list(x):
+                rec(x[k], lambda v, k=k: rebuild({**x, k: v}))
+
+    rec(d, lambda v: v)
+    return out[:limit]
+
+
+SET_KINDS = ("set", "abstractset", "frozenset")
+
+
+def set_dup_data(td, aliaser=None, limit: int = 40) -> List[Any]:
+    """conforming data of a description in which the array at each SET-TYPED POSITION (at any depth:
+    fields, items, mapping values, tuple elements, Optional / union alternatives) is replaced by
+    arrays with duplicates: n copies of one conforming item (n = 1..4) and mixtures [a,b,a], [a,b,b,a]"""
+    opts = M.Opts(aliaser=aliaser)
+
+    def rec(t, depth=0) -> List[Any]:
+        if depth > 4:
+            return []
+        if isinstance(t, (M.Ann, M.NewT, M.Opt)):
+            return rec(t.t, depth)
+        if isinstance(t, M.Uni):
+            return [x for a in t.alts for x in rec(a, depth)]
+        if isinstance(t, M.Coll):
+            out = [[x] for x in rec(t.t, depth + 1)]
+            if t.kind in SET_KINDS:
+                es = P.valid_samples(t.t)[:2]
+                if es:
+                    a, b = es[0], es[-1]
+                    out += [[copy.deepcopy(a) for _ in range(n)] for n in (1, 2, 3, 4)]
+                    out += [[a, b, a], [a, b, b, a]]
+            return out
+        if isinstance(t, M.Tup):
+            base = [P.valid_samples(e)[0] for e in t.elts]
+            return [base[:i] + [x] + base[i + 1 :] for i, e in enumerate(t.elts) for x in rec(e, depth + 1)]
+        if isinstance(t, M.Mapp):
+            return [{"k": x} for x in rec(t.v, depth + 1)]
+        if isinstance(t, M.Obj):
+            base = P.valid_samples(t)[0]
+            out = []
+            for f in t.fields:
+                if f.flatten or f.pattern is not None or f.additional or not f.init:
+                    continue
+                for x in rec(f.t, depth + 1):
+                    out.append({**copy.deepcopy(base), M.ext_name(t, f, opts): x})
+            return out
+        return []
+
     if isinstance(td, Native):
-        return native_pool(td, tier, rng)
-    return P.data_pool(td, tier, rng)
+        return []
+    return rec(td)[:limit]
+
+
+def data_pool(td, tier: str, rng: random.Random, dups: bool = False, aliaser=None) -> List[Any]:
+    """`dups`: add the duplicate-carrying variants of the conforming samples (types with a set position)"""
+    base = native_pool(td, tier, rng) if isinstance(td, Native) else P.data_pool(td, tier, rng)
+    if not dups:
+        return base
+    samples = list(td.samples) if isinstance(td, Native) else P.valid_samples(td)
+    seen = {repr(x) + str(P._typesig(x)) for x in base}
+    extra = [v for smp in samples[: (6 if tier == "quick" else 12)] for v in dup_variants(copy.deepcopy(smp))] + set_dup_data(td, aliaser)
+    for v in extra:
+        k = repr(v) + str(P._typesig(v))
+        if k not in seen:
+            seen.add(k)
+            base.append(v)
+    return base
 
 
 # ---------------------------------------------------------------------------
@@ -247,7 +328,28 @@ def any_node(td, pred, descs: Optional[Dict[str, M.Obj]] = None, _seen=None) -> 
 def has_set_position(td) -> bool:
     if isinstance(td, Native):
         return td.set_positions
-    return any_node(td, lambda t: isinstance(t, M.Coll) and t.kind in ("set", "abstractset", "frozenset"))
+    return any_node(td, lambda t: isinstance(t, M.Coll) and t.kind in SET_KINDS)
+
+
+def has_explicit_unique(td) -> bool:
+    """a `unique` constraint written somewhere (Annotated, NewType, field or class schema)"""
+
+    def own(c) -> bool:
+        return bool(c) and bool(c.get("unique"))
+
+    def pred(t) -> bool:
+        if isinstance(t, (M.Ann, M.NewT)) and own(t.cons):
+            return True
+        if isinstance(t, M.Obj):
+            return own(t.cons) or any(own(f.cons) for f in t.fields)
+        return False
+
+    return False if isinstance(td, Native) else any_node(td, pred)
+
+
+def strip_unique(schema):
+    """the schema without `uniqueItems` (common domain: uniqueness is not compared at set positions)"""
+    return map_schema(schema, lambda s: {k: v for k, v in s.items() if k != "uniqueItems"})
 
 
 def has_obj(td) -> bool:
